@@ -5,7 +5,7 @@ import os
 import jsonfam
 import verif
 
-NAPI = 28
+NAPI = 31
 
 
 def judge(ctx, cases):
